@@ -54,6 +54,24 @@ func main() {
 		for _, e := range eng.specs.Errors {
 			fmt.Println("SPEC-ERROR:", e)
 		}
+	case "ssa":
+		eng, err := loadEngine(*repo, *vdir)
+		if err != nil {
+			fmt.Println(err)
+			os.Exit(1)
+		}
+		if f := eng.funcs[*only]; f != nil {
+			f.WriteTo(os.Stdout)
+		} else {
+			fmt.Println("no such function; try gvc list")
+		}
+	case "callees":
+		eng, err := loadEngine(*repo, *vdir)
+		if err != nil {
+			fmt.Println(err)
+			os.Exit(1)
+		}
+		eng.listCallees(*only)
 	case "dump":
 		eng, err := loadEngine(*repo, *vdir)
 		if err != nil {
